@@ -130,4 +130,97 @@ mod verif_kani {
         kani::cover!(n * 2 > len && n < len);
         kani::cover!(n == len && len >= 2);
     }
+
+    // ------------------------------------------------------------------------------------------------
+    // property C05, join-type algebra: JoinType::{swap, is_outer, empty_build_side_produces_empty_result,
+    // empty_map_produces_empty_result} against the nested-loop DEFINITION of each join type on inputs of at most one
+    // row per side (presence of the left row, presence of the right row, whether they match): exhaustive, loop-free per case.
+    // A result is the set of row shapes it contains.
+    // ------------------------------------------------------------------------------------------------
+    use crate::JoinType;
+    const PAIR: u16 = 1;        // (l, r)
+    const L_NULL: u16 = 2;      // (l, NULL)
+    const NULL_R: u16 = 4;      // (NULL, r)
+    const L_ONLY: u16 = 8;      // (l)            semi / anti output of the left side
+    const R_ONLY: u16 = 16;     // (r)
+    const L_MARK_T: u16 = 32;   // (l, mark = true)
+    const L_MARK_F: u16 = 64;
+    const R_MARK_T: u16 = 128;
+    const R_MARK_F: u16 = 256;
+
+    /// nested-loop evaluation of `left JOIN right` (the definition the property refers to)
+    fn nested_loop(t: JoinType, l: bool, r: bool, m: bool) -> u16 {
+        let hit = l && r && m;
+        match t {
+            JoinType::Inner => if hit { PAIR } else { 0 },
+            JoinType::Left => if hit { PAIR } else if l { L_NULL } else { 0 },
+            JoinType::Right => if hit { PAIR } else if r { NULL_R } else { 0 },
+            JoinType::Full => if hit { PAIR } else { (if l { L_NULL } else { 0 }) | (if r { NULL_R } else { 0 }) },
+            JoinType::LeftSemi => if hit { L_ONLY } else { 0 },
+            JoinType::RightSemi => if hit { R_ONLY } else { 0 },
+            JoinType::LeftAnti => if l && !hit { L_ONLY } else { 0 },
+            JoinType::RightAnti => if r && !hit { R_ONLY } else { 0 },
+            JoinType::LeftMark => if l { if hit { L_MARK_T } else { L_MARK_F } } else { 0 },
+            JoinType::RightMark => if r { if hit { R_MARK_T } else { R_MARK_F } } else { 0 },
+        }
+    }
+    /// the same rows with the two sides exchanged
+    fn mirror(x: u16) -> u16 {
+        let mut y = 0;
+        if x & PAIR != 0 { y |= PAIR; }
+        if x & L_NULL != 0 { y |= NULL_R; }
+        if x & NULL_R != 0 { y |= L_NULL; }
+        if x & L_ONLY != 0 { y |= R_ONLY; }
+        if x & R_ONLY != 0 { y |= L_ONLY; }
+        if x & L_MARK_T != 0 { y |= R_MARK_T; }
+        if x & L_MARK_F != 0 { y |= R_MARK_F; }
+        if x & R_MARK_T != 0 { y |= L_MARK_T; }
+        if x & R_MARK_F != 0 { y |= L_MARK_F; }
+        y
+    }
+
+    #[kani::proof]
+    #[kani::unwind(11)]
+    fn c05_join_type_algebra() {
+        let all = [JoinType::Inner, JoinType::Left, JoinType::Right, JoinType::Full, JoinType::LeftSemi, JoinType::RightSemi,
+                   JoinType::LeftAnti, JoinType::RightAnti, JoinType::LeftMark, JoinType::RightMark];
+        let (l, r, m): (bool, bool, bool) = (kani::any(), kani::any(), kani::any());
+        let mut i = 0;
+        while i < 10 {
+            let t = all[i];
+            assert!(t.supports_swap(), "C05.join_type.every_type_can_be_swapped");
+            let s = t.swap();
+            // swapping the inputs and the join type gives the same rows, sides exchanged
+            assert!(mirror(nested_loop(s, r, l, m)) == nested_loop(t, l, r, m), "C05.join_type.swap_is_the_join_of_the_exchanged_inputs");
+            assert!(s.swap() == t, "C05.join_type.swap_is_an_involution");
+            // with an empty build (left) side nothing can be produced, whatever the probe side holds
+            if t.empty_build_side_produces_empty_result() { assert!(nested_loop(t, false, r, m) == 0, "C05.join_type.empty_build_side_claim_is_sound"); }
+            // with no matchable key nothing can be produced
+            if t.empty_map_produces_empty_result() { assert!(nested_loop(t, l, r, false) == 0, "C05.join_type.empty_map_claim_is_sound"); }
+            if t.empty_map_produces_empty_result() { assert!(t.empty_build_side_produces_empty_result(), "C05.join_type.empty_map_claim_implies_empty_build_claim"); }
+            // outer joins are exactly the ones that can pad a row with NULLs
+            if nested_loop(t, l, r, m) & (L_NULL | NULL_R) != 0 { assert!(t.is_outer(), "C05.join_type.null_padding_only_in_outer_joins"); }
+            i += 1;
+        }
+        kani::cover!(l && r && !m);
+    }
+
+    /// the two claims are not only sound but exact: a join type for which the claim is false can produce a row
+    #[kani::proof]
+    #[kani::unwind(11)]
+    fn c05_join_type_emptiness_claims_are_exact() {
+        let all = [JoinType::Inner, JoinType::Left, JoinType::Right, JoinType::Full, JoinType::LeftSemi, JoinType::RightSemi,
+                   JoinType::LeftAnti, JoinType::RightAnti, JoinType::LeftMark, JoinType::RightMark];
+        let mut i = 0;
+        while i < 10 {
+            let t = all[i];
+            let some_row_without_build = nested_loop(t, false, true, false) != 0 || nested_loop(t, false, true, true) != 0;
+            assert!(t.empty_build_side_produces_empty_result() == !some_row_without_build, "C05.join_type.empty_build_side_claim_is_exact");
+            let some_row_without_match = nested_loop(t, true, true, false) != 0 || nested_loop(t, true, false, false) != 0 || nested_loop(t, false, true, false) != 0;
+            assert!(t.empty_map_produces_empty_result() == !some_row_without_match, "C05.join_type.empty_map_claim_is_exact");
+            let can_pad = (nested_loop(t, true, false, false) | nested_loop(t, false, true, false) | nested_loop(t, true, true, false)) & (L_NULL | NULL_R) != 0;
+            assert!(t.is_outer() == can_pad, "C05.join_type.is_outer_is_exact");
+            i += 1;
+        }
+    }
 }
